@@ -648,7 +648,7 @@ pub fn run_property(prop: &Prop, tier: Tier, seed: u64, root: PathBuf, only_stre
                     std::process::exit(2);
                 }
                 for (key, elapsed, v) in sh_ref.stalled(Duration::from_secs(20)) {
-                    let limit = if sh_ref.stall_is_violation() { 900 } else { 180 };
+                    let limit = if sh_ref.stall_is_violation() { 900 } else { 600 };
                     if elapsed > Duration::from_secs(limit) {
                         println!("INCONCLUSIVE property={} a case has been running for {limit} s", sh_ref.id);
                         std::process::exit(2);
